@@ -776,6 +776,8 @@ type WildTrace struct {
 	SrvAsked    bool `json:"srvAsked"`
 	SrvReqSeen  bool `json:"srvReqSeen"`
 	SrvAnswered bool `json:"srvAnswered"`
+	// ... and after that connection was closed the peer's next request was served (retransmitted up to three times)
+	AfterCloseServed bool `json:"afterCloseServed"`
 }
 
 func runWild() WildTrace {
@@ -911,6 +913,26 @@ func runWild() WildTrace {
 			}
 		}
 		tr.SrvAnswered = <-got
+		// that connection is closed (by the application here; a malformed datagram or the inactivity monitor do the same): the
+		// peer's next request is served all the same - by a connection of its own
+		_ = cc.Close()
+		req := memnet.Build(message.Confirmable, int(codes.GET), 0x4444, []byte{0xD3, 0x01}, message.Options{{ID: message.URIPath, Value: []byte("afterclose")}}, nil)
+		for try := 0; try < 3 && !tr.AfterCloseServed; try++ {
+			if _, err := peerB.WriteToUDP(req, &net.UDPAddr{IP: net.IPv4(127, 0, 0, 1), Port: port}); err != nil {
+				break
+			}
+			_ = peerB.SetReadDeadline(time.Now().Add(500 * time.Millisecond))
+			for {
+				k, _, err := peerB.ReadFromUDP(buf)
+				if err != nil {
+					break
+				}
+				if d, err := memnet.Parse(buf[:k]); err == nil && d.MID == 0x4444 && d.Code == int(codes.Content) && string(d.Payload) == "/afterclose" {
+					tr.AfterCloseServed = true
+					break
+				}
+			}
+		}
 	}
 	return tr
 }
